@@ -32,7 +32,8 @@ STDLIB = [
 STDLIB = list(dict.fromkeys(STDLIB))
 
 TD_MODULE = '''\
-from typing import TypedDict, NotRequired, ReadOnly
+from typing import TypedDict, NotRequired
+from typing_extensions import ReadOnly
 class TD(TypedDict):
     zeta: int
     alpha: str
@@ -58,9 +59,9 @@ def gen_module(rng: random.Random, idx: int) -> tuple[str, str]:
         "import abc, enum, dataclasses, types, typing, sys",
         "from typing import (Any, Callable, ClassVar, Final, Generic, Literal, NamedTuple, NewType, Optional, overload,",
         "    Protocol, runtime_checkable, TypeVar, ParamSpec, TypeVarTuple, Unpack, Concatenate, TypedDict, Self,",
-        "    TypeGuard, TypeIs, Awaitable, Iterator, AsyncIterator, final, Union, Type, Tuple, Required, NotRequired)",
-        "from typing_extensions import deprecated, dataclass_transform, disjoint_base" if r() < 0.9 else
-        "from typing_extensions import deprecated, dataclass_transform",
+        "    TypeGuard, Awaitable, Iterator, AsyncIterator, final, Union, Type, Tuple, Required, NotRequired)",
+        "from typing_extensions import TypeIs, deprecated, dataclass_transform, disjoint_base" if r() < 0.9 else
+        "from typing_extensions import TypeIs, deprecated, dataclass_transform",
         "",
         "T = TypeVar('T')",
         "TB = TypeVar('TB', bound=int)" if r() < 0.7 else "TB = TypeVar('TB', int, str)",
@@ -104,6 +105,8 @@ def gen_module(rng: random.Random, idx: int) -> tuple[str, str]:
         "@deprecated('old')\ndef f_deprecated() -> None: ...",
         "@overload\ndef f_over(x: int) -> int: ...\n@overload\ndef f_over(x: str) -> str: ...\ndef f_over(x): return x",
         "if sys.version_info >= (3, 0):\n    def f_cond() -> int: ...\nelse:\n    def f_cond() -> str: ...",
+        "if x_int:\n    def f_cond2() -> int: return 1\nelse:\n    def f_cond2() -> int: return 2",
+        "for idx_var in range(3):\n    pass",
         "def deco(f: T) -> T: return f",
         "@deco\ndef f_decorated(a: int) -> str: ...",
         "class KW(TypedDict):\n    b: int\n    a: str",
@@ -147,6 +150,9 @@ def gen_module(rng: random.Random, idx: int) -> tuple[str, str]:
         "@final\nclass Fin: ...",
         "class AnyBase(Any): ..." if r() < 0.8 else "class AnyBase: ...",
         "class Meta(type): ...",
+        "class AnyMeta(Any, type): ...\nclass WithAnyMeta(metaclass=AnyMeta): ...",
+        "class FinInit:\n    FI: Final[int]\n    def __init__(self) -> None:\n        self.FI = 1",
+        "class FinOver:\n    @overload\n    def m(self, x: int) -> int: ...\n    @overload\n    def m(self, x: str) -> str: ...\n    @final\n    def m(self, x): return x",
         "class WithMeta(metaclass=Meta): ...",
         "class Gen(Generic[T, P, Unpack[Ts]]):\n    def m(self, x: T, f: Callable[P, int]) -> tuple[Unpack[Ts]]: ...",
         "class GenDefault(Generic[TD_]):\n    x: TD_" if "default" in L[10] else "class GenDefault(Generic[TC]): ...",
@@ -175,7 +181,8 @@ def gen_user(rng: random.Random, gens: list[str]) -> tuple[str, str]:
     L = ["import c11_td", "from c11_td import TD as TDAlias"]
     for g in gens:
         L.append(f"import {g}")
-        L.append(f"from {g} import Base as Base_{g}, Color, f_over, Alias, T as T_{g}, NTup, TDict")
+        L.append(f"from {g} import (Base as Base_{g}, Color as Color_{g}, f_over as f_over_{g}, Alias as Alias_{g},")
+        L.append(f"    T as T_{g}, NTup as NTup_{g}, TDict as TDict_{g})")
         if rng.random() < 0.6:
             L.append(f"from {g} import does_not_exist_{rng.randint(0, 9)}  # type: ignore")
         L.append(f"class Sub_{g}({g}.Child):\n    def am(self) -> int: return 3\n    extra: {g}.TDict")
